@@ -41,7 +41,7 @@ func nearCollidingUniverse(t *rapid.T, n int) []model.TripleSpec {
 	s1 := model.NodeSpec{Type: "/a", ID: "bc"}
 	s2 := model.NodeSpec{Type: "/a/b", ID: "c"}
 	s3 := model.NodeSpec{Type: "/ab", ID: "c"} // collides with s1 under KF-C06-NODE-BOUNDARY: filtered below while that finding is open
-	s4 := model.NodeSpec{Type: "/a", ID: "c"} // same id as s2 under its parent type (covariant types)
+	s4 := model.NodeSpec{Type: "/a", ID: "c"}  // same id as s2 under its parent type (covariant types)
 	base := int64(1136214245)
 	pi := model.PredSpec{ID: "p"}
 	pt := model.PredSpec{ID: "p", Anchor: tsp(base, 0, 0)}
